@@ -18,7 +18,7 @@ _legal_add("C11",
     "legal_move_notations_roundtrip - for every raw move m the engine accepts (not the pass), n = normalize m: n.Equal(m), the engine treats n as m, FormatMove/FormatMoveLong/FormatServer of n parse back to n, with any "
     "suffix over !?'* on the PTN forms, and ParseServer(FormatServer m) = n for the RAW m (FormatServer never reads the Slides word of a placement); legal_moves_notations_agree (two accepted moves are spelled alike iff Equal); "
     "ptn_junk_placement_not_roundtrip - the normalisation is NEEDED for PTN: on the 5x5 start position the placement a1 with Slides = 3 is accepted (Equal to the generated a1) but FormatMove prints '3a1', which ParseMove rejects. "
-    "So the domain of the C11 theorems contains the normal form of every legal move ('every legal move' of the property, up to Move.Equal). Not proved: the converse (every LegalShape is legal in some position). "
+    "legalShape_legal_somewhere (converse: every LegalShape of size n is accepted by the rule book in some n x n position - a placement on the empty board at ply 2, a slide from a stack of exactly the carried number of the mover's flats on an otherwise empty board) and legalShape_iff_legal_somewhere: LegalShape size m iff m is normal and legal in some position of that size. So the domain of the C11 theorems is EXACTLY 'every legal move on every board size' of the property, up to Move.Equal. "
     "SAMPLED (generator C11legal, op legalraw, ~1.2*10^4 (position, move) pairs per quick run): on the real code, per pair: accepted or not; Move.Equal both ways against the cleared value; Position.Move of the cleared value = "
     "identical successor; for accepted non-pass moves the AllMoves entry Equal to it (= normalize m), membership of the cleared value in the harness' legal-shape enumeration, FormatMove/ParseMove of the raw and of the cleared value, "
     "FormatServer/ParseServer of the raw value; the model additionally checks its answers against the theorems (MODEL-THM-FAIL). Observed on the unchanged tree: ~98% of accepted placements with a junk Slides word "
